@@ -16,7 +16,7 @@ JOBS = {'quick': 1, 'thorough': 16}
 REQUIRED_MONITORS = ('min_image_reference', 'symmetry', 'lattice_shift', 'inverse_flag', 'history_independence')
 REQUIRED_CLASSES = ('box:cubic', 'box:anisotropic', 'box:triclinic', 'arg:residue', 'arg:point', 'arg:multi-residue-molecule',
                     'placement:across-face', 'placement:far-outside', 'placement:lattice-points', 'box:triclinic-upper-only', 'box:triclinic-full', 'wrapped:yes', 'wrapped:no',
-                    'session:same', 'session:rescale-in-place', 'session:new-values-in-place', 'session:other-object')
+                    'session:same', 'session:rescale-in-place', 'session:new-values-in-place', 'session:other-object', 'call:positional', 'call:mixed', 'call:keywords')
 RULE = ('pairs (residue, residue-or-point) x box; classes: box kind (cubic / anisotropic rectangular / triclinic with '
         'skew <= 0.4 L), placement (inside, across a face, on a face, many boxes away). Non-trivial: the minimum '
         'image is not the plain separation (some axis wraps). distinct = distinct (box kind, placement, argument '
@@ -100,6 +100,32 @@ def cases(ctx):
         yield {'batch': b}
     for b in range(60 if ctx.tier == 'quick' else 40000):
         yield {'session': b}
+
+
+_shape_no = [0]
+
+
+def dist(ctx, a, b, box, inv=False):
+    """a.distance_to(b, ...) with the box (or its inverse) in one of the call shapes the signature
+    distance_to(residue, box_vects=None, inv=False) allows, in rotation."""
+    k = _shape_no[0] = (_shape_no[0] + 1) % 6
+    if k == 0:
+        ctx.hit('call:keywords')
+        return a.distance_to(b, box_vects=box, inv=True) if inv else a.distance_to(b, box_vects=box)
+    if k == 1:
+        ctx.hit('call:positional')
+        return a.distance_to(b, box, True) if inv else a.distance_to(b, box)
+    if k == 2:
+        ctx.hit('call:positional')
+        return a.distance_to(b, box, inv)
+    if k == 3:
+        ctx.hit('call:mixed')
+        return a.distance_to(b, box, inv=inv)
+    if k == 4:
+        ctx.hit('call:keywords')
+        return a.distance_to(residue=b, box_vects=box, inv=inv)
+    ctx.hit('call:keywords')
+    return a.distance_to(b, inv=inv, box_vects=box)
 
 
 def make_multi_residue_molecule(rng, centre):
@@ -281,7 +307,7 @@ def run_case(ctx, case):
             ctx.count('skipped_half_box_tie_generated')
             continue
         scale = float(np.abs(box).max())
-        d = res_a.distance_to(other, box_vects=box)
+        d = dist(ctx, res_a, other, box)
         ctx.count('evaluations')
         ctx.hit('box:' + bcls)
         while _shape:
@@ -298,7 +324,7 @@ def run_case(ctx, case):
             ctx.violation('distance-plain-wrong', f'non-periodic distance {plain} != {np.linalg.norm(cb - ca)}', witness=w)
         # symmetry (needs a residue on both sides)
         if as_res:
-            d2 = other.distance_to(res_a, box_vects=box)
+            d2 = dist(ctx, other, res_a, box)
             ctx.monitor('symmetry')
             if abs(d2 - d) > 1e-9 * scale:
                 ctx.violation('distance-asymmetric', f'd(a,b)={d:.12g} d(b,a)={d2:.12g}', witness=w)
@@ -309,17 +335,17 @@ def run_case(ctx, case):
             if rng.random() < 0.5 or not as_res:
                 moved = res_a.copy()
                 moved.move(shift)
-                d3 = moved.distance_to(other, box_vects=box)
+                d3 = dist(ctx, moved, other, box)
             else:
                 moved = other.copy()
                 moved.move(shift)
-                d3 = res_a.distance_to(moved, box_vects=box)
+                d3 = dist(ctx, res_a, moved, box)
             ctx.monitor('lattice_shift')
             if abs(d3 - d) > 1e-9 * scale * 10:
                 ctx.violation('distance-not-lattice-invariant',
                               f'{d:.12g} -> {d3:.12g} after shifting by {nshift.tolist()} box vectors', witness=dict(w, shift=nshift))
         # inverse flag
-        d4 = res_a.distance_to(other, box_vects=np.linalg.inv(box), inv=True)
+        d4 = dist(ctx, res_a, other, np.linalg.inv(box), inv=True)
         ctx.monitor('inverse_flag')
         if abs(d4 - d) > 1e-9 * scale:
             ctx.violation('distance-inverse-flag-differs', f'box: {d:.12g}, inverse box with inv=True: {d4:.12g}', witness=w)
